@@ -31,7 +31,7 @@ type GenOp struct {
 	Path string          `json:"path"`
 	Val  string          `json:"val"`  // subdoc value token, "" = remove
 	Newc string          `json:"newc"` // WithMeta new CAS class: hi | mid | low
-	Cb   string          `json:"cb"`   // Update callback: set | del | cancel | setexp
+	Cb   string          `json:"cb"`   // Update callback: set | del | cancel | setexp | retry | err | touchset
 	Json bool            `json:"json"` // WithMeta datatype
 	H    string          `json:"h"`    // handle: "" / h1 / h2
 	P    string          `json:"p"`    // process (concurrent drivers)
@@ -368,6 +368,13 @@ func (x *Ctx) Exec(c *rosmar.Collection, bucket *rosmar.Bucket, op *GenOp) (a Ar
 				n, _ := strconv.ParseUint(string(cur), 10, 32)
 				return []byte(strconv.FormatUint(n+1, 10)), nil, false, nil
 			case "set", "retry":
+				return body, nil, false, nil
+			case "touchset":
+				// the callback itself touches the key (which keeps the CAS) before it returns the new body
+				if !askedU {
+					askedU = true
+					_, _ = c.Touch(op.Key, x.exp.Concrete("E2"))
+				}
 				return body, nil, false, nil
 			case "err":
 				return []byte(`{"never":"stored"}`), nil, false, errors.New("callback failed")
